@@ -88,6 +88,9 @@ def _damages(cls, orig, case, sibling):
     if cls == "data":
         if sibling is not None:
             out.append(("sibling", sibling))
+            # the file's bytes were replaced by another valid file AND the first read attempt of every API call fails: whatever path the
+            # reader falls back to after the blip must still verify what it reads
+            out.append(("sibling+read-error-once", ("COMBO", sibling)))
         for name, pos in (("flip-head", 2), ("flip-mid", n // 2), ("flip-footer", max(n - 20, 0)), ("flip-footerlen", max(n - 6, 0)), ("flip-tail", n - 1)):
             b = bytearray(orig)
             b[pos] ^= 0x41
@@ -177,7 +180,22 @@ def check_table(case):
                 # ---- apply
                 stepper = None
                 budget = [None]
-                if payload in ("ERR", "ERR1", "ERR2"):
+                combo = isinstance(payload, tuple) and payload[0] == "COMBO"
+                if combo:
+                    stepper = Stepper()
+
+                    def fail1(n, phase, label, target, info, path=path):
+                        if phase == "before" and target == path and budget[0] and (("open:" in label) or label.startswith("s3:get") or label.startswith("storage:read") or label.startswith("storage:open")):
+                            budget[0] -= 1
+                            if w.kind == "local":
+                                raise OSError(5, "injected read error")
+                            raise client_error("InternalError", "GetObject", 500)
+
+                    stepper.handler = fail1
+                    payload = payload[1]
+                    _set(w, path, payload)
+                    changed, parse_ok = payload != orig, True
+                elif payload in ("ERR", "ERR1", "ERR2"):
                     stepper = Stepper()
                     once = {"ERR": None, "ERR1": 1, "ERR2": 2}[payload]
 
@@ -227,6 +245,10 @@ def check_table(case):
                                                               f"returned {_short(got)} instead of raising or the complete answer {_short(exp)}"))
                                 continue
                             for handle_kind in ("fresh", "warm"):
+                              if combo:
+                                  budget[0] = 1
+                                  if handle_kind == "warm":
+                                      continue
                               if handle_kind == "warm" and payload == "ERR":
                                   continue
                               if handle_kind == "warm" and cls != "data" and (api not in ("scan", "row_count", "batches_big") or fn != "none"):
